@@ -585,6 +585,7 @@ func main() {
 	steps := flag.Int("steps", 25, "steps per history")
 	dir := flag.String("out", "", "output directory")
 	replay := flag.String("replay", "", "replay the op lines of this file against the implementation")
+	noGrid := flag.Bool("nogrid", false, "skip the deterministic boundary grid of part A")
 	e2eChild := flag.Bool("e2e-child", false, "internal: run part B and write <out>/e2e.jsonl")
 	flag.Parse()
 	zerolog.SetGlobalLevel(zerolog.Disabled)
@@ -654,6 +655,9 @@ func main() {
 
 	// ---------------------------------------------------------------- boundary grid (deterministic)
 	for _, maxC := range []int64{1, 2, 3} {
+		if *noGrid {
+			break
+		}
 		for _, maxS := range []int64{16, 24, 40, 48} {
 			for _, nsh := range []int{0, 1, 2} {
 				for _, np := range []int{0, 1, 2, 3, 4} {
